@@ -34,6 +34,7 @@ TH = 'ml_pipeline_engine/parallelism/threads.py'
 PB = 'ml_pipeline_engine/parallelism/basic.py'
 PP = 'ml_pipeline_engine/parallelism/processes.py'
 SC = 'ml_pipeline_viewer/visualization/schema.py'
+CT = 'ml_pipeline_engine/context/dag.py'
 
 # (id, [(file, old, new)], [(property, rule)])
 MUTANTS: List[Tuple[str, List[Tuple[str, str, str]], List[Tuple[str, str]]]] = [
@@ -264,6 +265,25 @@ MUTANTS: List[Tuple[str, List[Tuple[str, str, str]], List[Tuple[str, str]]]] = [
     ('vl4-only-first-subgraph-validated', [(B, "        for _, dest in self._recurrent_sub_graphs:\n            node = self._node_map[dest]\n",
                                             "        for _, dest in self._recurrent_sub_graphs[:1]:\n            node = self._node_map[dest]\n")],
      [('C16', 'VL-4')]),
+    # ---- round 7 of seeded changes (DESIGN 9.18)
+    ('sw3-readiness-reads-hidden-verdict', [(M, "                    predecessors[idx] = self._node_storage.get_switch_result(node_id).node_id", "                    predecessors[idx] = self._node_storage.get_switch_result(node_id, with_hidden=True).node_id")],
+     [('C03', 'SW-3'), ('C09', 'SW-3')]),
+    ('rc12-case-dag-flagged-recurrent', [(M, "                    (self._node_storage.get_switch_result(node_id)).node_id,\n                    is_oneof=dag.is_oneof,", "                    (self._node_storage.get_switch_result(node_id)).node_id,\n                    is_recurrent=dag.is_recurrent,\n                    is_oneof=dag.is_oneof,")],
+     [('C11', 'RC-12'), ('C04', 'RC-12')]),
+    ('as7-store-refusal-swallowed', [(CT, "        await self.artifact_store.save(node_id=node_id, data=data)", "        try:\n            await self.artifact_store.save(node_id=node_id, data=data)\n        except Exception:\n            pass")],
+     [('C19', 'AS-7')]),
+    ('sh10-tasks-found-in-the-loop-registry', [(M, "                self._stop_coro_tasks(*local_tasks)", "                self._stop_coro_tasks(*[t_ for t_ in asyncio.all_tasks() if t_.get_name() in list_node_ids])")],
+     [('C08', 'SH-10'), ('C13', 'SH-10')]),
+    ('fs10-await-between-test-and-create', [(F, "        path = Path(self._ensure_dir() / f'{node_id}.{fmt.value}')\n\n        try:", "        await __import__('asyncio').sleep(0)\n        path = Path(self._ensure_dir() / f'{node_id}.{fmt.value}')\n\n        try:")],
+     [('C18', 'FS-10')]),
+    ('oo12-scan-includes-ancestors', [(M, "            self._node_storage.exists_node_error(node_id)\n            for node_id in dag.nodes\n", "            self._node_storage.exists_node_error(node_id)\n            for node_id in set(dag.nodes) | nx.ancestors(self.dag.graph, dag.dest)\n")],
+     [('C10', 'OO-12'), ('C05', 'OO-12')]),
+    ('oo12-scan-skips-the-destination', [(M, "            self._node_storage.exists_node_error(node_id)\n            for node_id in dag.nodes\n", "            self._node_storage.exists_node_error(node_id)\n            for node_id in dag.nodes if node_id != dag.dest\n")],
+     [('C10', 'OO-12')]),
+    ('fs2-write-failure-not-rolled-back', [(F, "        except BaseException:\n            # A failed save must not leave a file behind, otherwise the key looks saved\n", "        except (TypeError, ValueError, AttributeError, __import__('pickle').PicklingError):\n            # A failed save must not leave a file behind, otherwise the key looks saved\n")],
+     [('C18', 'FS-2')]),
+    ('rc7-subgraph-from-descendants-only', [(G, "    subgraph: DiGraph = dag.subgraph({node_id for path in nx.all_simple_paths(dag, source, dest) for node_id in path})", "    subgraph: DiGraph = dag.subgraph(nx.descendants(dag, source) | {source})")],
+     [('C11', 'RC-7')]),
 ]
 
 ALL_PROPS = [f'C{n:02d}' for n in range(2, 21)]
@@ -339,6 +359,11 @@ BENIGN: List[Tuple[str, List[Tuple[str, str, str, bool]]]] = [
     ('sw4-hide-via-loop-over-stores', [(S, "            self.hide_processed_node(node_id)\n            self.hide_node_result(node_id)\n            self.hide_switch_result(node_id)\n",
                                         "            for store in (self.processed_nodes, self.node_results, self.switch_results):\n                store.hide(node_id)\n", False)]),
     ('bn7-annotations-copied', [(N, "    class_method.__doc__ = process_method.__doc__\n", "    class_method.__doc__ = process_method.__doc__\n    class_method.__annotations__ = dict(getattr(process_method, '__annotations__', {}))\n", False)]),
+    # ---- round 7
+    ('oo12-scan-over-a-list-of-the-nodes', [(M, "            for node_id in dag.nodes\n        ])", "            for node_id in list(dag.nodes)\n        ])", False)]),
+    ('rc12-case-dag-explicitly-not-recurrent', [(M, "                    (self._node_storage.get_switch_result(node_id)).node_id,\n                    is_oneof=dag.is_oneof,", "                    (self._node_storage.get_switch_result(node_id)).node_id,\n                    is_recurrent=False,\n                    is_oneof=dag.is_oneof,", False)]),
+    ('as7-store-error-logged-and-reraised', [(CT, "        await self.artifact_store.save(node_id=node_id, data=data)", "        try:\n            await self.artifact_store.save(node_id=node_id, data=data)\n        except Exception:\n            import logging\n            logging.getLogger(__name__).debug('the artifact store refused %s', node_id)\n            raise", False)]),
+    ('hidden-set-renamed', [(S, "_hidden_keys", "_concealed", True)]),
 ]
 
 
